@@ -33,8 +33,8 @@ def profrs(dtprofup, service_url, profile_url, finame="FI", extra=""):
     return ("<PROFRS><MSGSETLIST>" + sets +
             "</MSGSETLIST><SIGNONINFOLIST><SIGNONINFO><SIGNONREALM>R</SIGNONREALM><MIN>4</MIN><MAX>32</MAX><CHARTYPE>ALPHAORNUMERIC</CHARTYPE>"
             "<CASESEN>Y</CASESEN><SPECIAL>Y</SPECIAL><SPACES>N</SPACES><PINCH>N</PINCH></SIGNONINFO></SIGNONINFOLIST>"
-            "<DTPROFUP>%s</DTPROFUP><FINAME>%s</FINAME><ADDR1>1 Main St%s</ADDR1><CITY>C</CITY><STATE>NY</STATE><POSTALCODE>1</POSTALCODE><COUNTRY>USA</COUNTRY></PROFRS>"
-            % (dtprofup, finame, extra))
+            "<DTPROFUP>%s</DTPROFUP><FINAME>%s</FINAME><ADDR1>1 Main St</ADDR1><CITY>C</CITY><STATE>NY</STATE><POSTALCODE>1</POSTALCODE><COUNTRY>USA</COUNTRY>%s</PROFRS>"
+            % (dtprofup, finame, ("<INTU.FILLER>%s</INTU.FILLER>" % extra) if extra else ""))
 
 
 def profile_ok(dtprofup, service_url, profile_url, finame="FI", trnuid="1", extra="", v1=False, pretty=False):
